@@ -368,7 +368,58 @@ def r5_units_and_positions(ctx):
     ctx.floor("arithmetic on char_indices offsets", n, 1)
 
 
-RULES = [("C13-R1", r1_no_failing_index), ("C13-R2", r2_slice_clamps), ("C13-R4", r4_scan_shape), ("C13-R5", r5_units_and_positions)]
+def r6_no_arithmetic_panic(ctx):
+    """A string built-in that panics does not agree with its specification: no integer division by a value that can be zero
+    (shared with C06-R12; `split` sizes its result with len / separator length), and every buffer a character is encoded into
+    holds the longest encoding (4 bytes) - `encode_utf8` panics on a shorter one, but only for the characters that need it."""
+    from .c06 import r12_no_division_by_zero
+    r12_no_division_by_zero(ctx)
+    encode_buffers(ctx)
+
+
+def encode_buffers(ctx):
+    """Every buffer a character is encoded into holds the longest encoding (shared with C06-R11)."""
+    n = 0
+    for fid, fn in sorted(ctx.lib.fns.items()):
+        if not fn.file.startswith("src/"):
+            continue
+        for c in fn.calls():
+            if not (c.callee or "").endswith("::encode_utf8") or len(c.args) < 2:
+                continue
+            n += 1
+            ctx.touch(fn)
+            pl = c.args[1].get("move") or c.args[1].get("copy") if isinstance(c.args[1], dict) else None
+            size = None
+            hops = 0
+            while pl is not None and hops < 6:
+                ty = fn.locals[pl["l"]]["ty"] if not pl["p"] or pl["p"] == ["*"] else ""
+                m = re.search(r"\[u8; (\d+)\]", ty)
+                if m:
+                    size = int(m.group(1))
+                    break
+                dd = fn.whole_defs(pl["l"])
+                if len(dd) != 1 or dd[0][1] == "t":
+                    break
+                rv = dd[0][2]["rv"]
+                nx = rv.get("a") if rv["k"] in ("cast", "use") else (None if rv["k"] not in ("ref", "rawptr") else {"copy": rv["of"]})
+                pl = (nx.get("move") or nx.get("copy")) if isinstance(nx, dict) else None
+                hops += 1
+            ordn = sum(1 for r in ctx.records if r["rule"] == ctx.rule and r["instance"].startswith("encode|%s#" % parent_fn(fid)))
+            key = "encode|%s#%d" % (parent_fn(fid), ordn + 1)
+            if size is not None and size >= 4:
+                ctx.ok(key, fn.where(c.block), "encodes into a [u8; %d]" % size)
+            elif size is not None:
+                ctx.bad("encode|%s|buffer-%d" % (parent_fn(fid), size), fn.where(c.block), "a character is encoded into a [u8; %d]: encode_utf8 panics for every character whose encoding is longer (4 bytes: U+10000 and above - emoji, flags), so the string built-ins that copy characters through this routine abort on such text" % size)
+            else:
+                facts = [(o, sh(a), sh(b)) for o, a, b, S in cmp_facts(fn, c.block)]
+                if any("len_utf8" in a + b for o, a, b in facts):
+                    ctx.ok(key, fn.where(c.block), "destination length compared with len_utf8")
+                else:
+                    ctx.bad("encode|%s|buffer-unknown" % parent_fn(fid), fn.where(c.block), "cannot see that the buffer a character is encoded into holds 4 bytes (no fixed-size array, no comparison with len_utf8)")
+    ctx.floor("characters encoded into a buffer", n, 2)
+
+
+RULES = [("C13-R1", r1_no_failing_index), ("C13-R2", r2_slice_clamps), ("C13-R4", r4_scan_shape), ("C13-R5", r5_units_and_positions), ("C13-R6", r6_no_arithmetic_panic)]
 
 EXPLANATION = (
     "Thin by design: functional correctness of a hand-written matcher over all string pairs is not decidable here (a "
@@ -380,6 +431,9 @@ EXPLANATION = (
     "index + 1, loop runs while offset < hlen, success returns the compared position) and of replace (gap then replacement, "
     "cursor at index + len(from), empty pattern special-cased); R5 join writes its separator as a function of the element position only (never of the text written so far), and an offset delivered by char_indices is only ever advanced by len_utf8 of the same character. Not decided: first-occurrence correctness as such, the "
     "critical factorisation, split/join round trip, Unicode case mapping."
+)
+EXPLANATION += (
+    ' R6: no string built-in can end in an arithmetic panic - the zero-divisor rule of C06-R12, and every buffer a character is encoded into (`char::encode_utf8`) is a fixed array of at least 4 bytes or has its length compared with len_utf8.'
 )
 ASSUMPTIONS = ["memchr returns the first index >= offset of the byte, or the haystack length", "named exceptions in rules/c13.py"]
 TRUSTED = ["rustc nightly MIR", "nsx exporter", "nsverif relational-guard extraction"]
